@@ -326,12 +326,22 @@ package semver
 //@          mvnNum(a.ext.(*mavenExtension).elems[p+1], '-') &&
 //@          mvnQual(a.ext.(*mavenExtension).elems[p+2]) && a.ext.(*mavenExtension).elems[p+2].str == "snapshot")
 
+// Unbounded attempts at these two lemmas do not terminate in the solvers
+// (minutes per case even after splitting on the tail shapes), so they are
+// checked as BOUNDED stand-ins: every combination of element-list lengths up
+// to the bound, element contents fully symbolic.
+
 //@ lemma compare.maven.trans
 //@   vars a, b, c *Version; pa, pb, pc int
 //@   unfold compare (*mavenExtension).compare
 //@   requires mvnD1(a, pa) && mvnD1(b, pb) && mvnD1(c, pc)
 //@   requires compare(a, b) <= 0 && compare(b, c) <= 0
+//@   requires len(a.ext.(*mavenExtension).elems) <= 3 && len(b.ext.(*mavenExtension).elems) <= 3 && len(c.ext.(*mavenExtension).elems) <= 3
+//@   split len(a.ext.(*mavenExtension).elems) == 1 | len(a.ext.(*mavenExtension).elems) == 2 | len(a.ext.(*mavenExtension).elems) == 3
+//@   split len(b.ext.(*mavenExtension).elems) == 1 | len(b.ext.(*mavenExtension).elems) == 2 | len(b.ext.(*mavenExtension).elems) == 3
+//@   split len(c.ext.(*mavenExtension).elems) == 1 | len(c.ext.(*mavenExtension).elems) == 2 | len(c.ext.(*mavenExtension).elems) == 3
 //@   ensures compare(a, c) <= 0
+//@   bounded element lists of at most 3 elements per version (element contents symbolic); not counted as proved
 //@   property C01
 
 //@ lemma compare.maven.congruence
@@ -339,5 +349,43 @@ package semver
 //@   unfold compare (*mavenExtension).compare
 //@   requires mvnD1(a, pa) && mvnD1(b, pb) && mvnD1(c, pc)
 //@   requires compare(a, b) == 0
-//@   ensures imp(compare(a, c) < 0, compare(b, c) < 0) && imp(compare(a, c) > 0, compare(b, c) > 0) && imp(compare(a, c) == 0, compare(b, c) == 0)
+//@   requires len(a.ext.(*mavenExtension).elems) <= 3 && len(b.ext.(*mavenExtension).elems) <= 3 && len(c.ext.(*mavenExtension).elems) <= 3
+//@   split len(a.ext.(*mavenExtension).elems) == 1 | len(a.ext.(*mavenExtension).elems) == 2 | len(a.ext.(*mavenExtension).elems) == 3
+//@   split len(b.ext.(*mavenExtension).elems) == 1 | len(b.ext.(*mavenExtension).elems) == 2 | len(b.ext.(*mavenExtension).elems) == 3
+//@   split len(c.ext.(*mavenExtension).elems) == 1 | len(c.ext.(*mavenExtension).elems) == 2 | len(c.ext.(*mavenExtension).elems) == 3
+//@   ensures imp(compare(a, c) < 0, compare(b, c) < 0)
+//@   ensures imp(compare(a, c) > 0, compare(b, c) > 0)
+//@   ensures imp(compare(a, c) == 0, compare(b, c) == 0)
+//@   bounded element lists of at most 3 elements per version (element contents symbolic); not counted as proved
 //@   property C01
+
+//@ lemma compare.maven.trans4
+//@   vars a, b, c *Version; pa, pb, pc int
+//@   unfold compare (*mavenExtension).compare
+//@   requires mvnD1(a, pa) && mvnD1(b, pb) && mvnD1(c, pc)
+//@   requires compare(a, b) <= 0 && compare(b, c) <= 0
+//@   requires len(a.ext.(*mavenExtension).elems) <= 4 && len(b.ext.(*mavenExtension).elems) <= 4 && len(c.ext.(*mavenExtension).elems) <= 4
+//@   split len(a.ext.(*mavenExtension).elems) == 1 | len(a.ext.(*mavenExtension).elems) == 2 | len(a.ext.(*mavenExtension).elems) == 3 | len(a.ext.(*mavenExtension).elems) == 4
+//@   split len(b.ext.(*mavenExtension).elems) == 1 | len(b.ext.(*mavenExtension).elems) == 2 | len(b.ext.(*mavenExtension).elems) == 3 | len(b.ext.(*mavenExtension).elems) == 4
+//@   split len(c.ext.(*mavenExtension).elems) == 1 | len(c.ext.(*mavenExtension).elems) == 2 | len(c.ext.(*mavenExtension).elems) == 3 | len(c.ext.(*mavenExtension).elems) == 4
+//@   ensures compare(a, c) <= 0
+//@   bounded element lists of at most 4 elements per version (element contents symbolic); not counted as proved
+//@   tier thorough
+//@   property C01
+
+//@ lemma compare.maven.congruence4
+//@   vars a, b, c *Version; pa, pb, pc int
+//@   unfold compare (*mavenExtension).compare
+//@   requires mvnD1(a, pa) && mvnD1(b, pb) && mvnD1(c, pc)
+//@   requires compare(a, b) == 0
+//@   requires len(a.ext.(*mavenExtension).elems) <= 4 && len(b.ext.(*mavenExtension).elems) <= 4 && len(c.ext.(*mavenExtension).elems) <= 4
+//@   split len(a.ext.(*mavenExtension).elems) == 1 | len(a.ext.(*mavenExtension).elems) == 2 | len(a.ext.(*mavenExtension).elems) == 3 | len(a.ext.(*mavenExtension).elems) == 4
+//@   split len(b.ext.(*mavenExtension).elems) == 1 | len(b.ext.(*mavenExtension).elems) == 2 | len(b.ext.(*mavenExtension).elems) == 3 | len(b.ext.(*mavenExtension).elems) == 4
+//@   split len(c.ext.(*mavenExtension).elems) == 1 | len(c.ext.(*mavenExtension).elems) == 2 | len(c.ext.(*mavenExtension).elems) == 3 | len(c.ext.(*mavenExtension).elems) == 4
+//@   ensures imp(compare(a, c) < 0, compare(b, c) < 0)
+//@   ensures imp(compare(a, c) > 0, compare(b, c) > 0)
+//@   ensures imp(compare(a, c) == 0, compare(b, c) == 0)
+//@   bounded element lists of at most 4 elements per version (element contents symbolic); not counted as proved
+//@   tier thorough
+//@   property C01
+
